@@ -64,6 +64,20 @@ def pad(arrs, value):
     return out
 
 
+def real_matrix(d):
+    """the distances as the real chunked matrix object the scorer is handed in production"""
+    from batchie.distance_calculation import ChunkedDistanceMatrix
+    n = d.shape[0]
+    m = ChunkedDistanceMatrix(n)
+    for i in range(n):
+        for j in range(i):
+            m.add_value(i, j, float(d[i, j]))
+    return m
+
+
+SCORERS = {}          # one scorer object per configuration for the whole run: nothing may be remembered between score() calls
+
+
 def scorer_entry(n, sizes, means, vars_, d, max_chunk, order, rng, max_triples=100000):
     """GaussianDBALScorer.score through real plate views and stub samples"""
     rows_pl = [p for p, e in enumerate(sizes) for _ in range(e)]
@@ -74,7 +88,8 @@ def scorer_entry(n, sizes, means, vars_, d, max_chunk, order, rng, max_triples=1
     for th in range(n):
         h.add_theta(ArrTheta(np.concatenate([means[p][th] for p in range(len(sizes))]), np.concatenate([vars_[p][th] for p in range(len(sizes))])))
     plates = {p: scr.get_plate(p) for p in order}
-    st, r = outcome(G.GaussianDBALScorer(max_chunk=max_chunk, max_triples=max_triples).score, plates, Dense(d), h, rng, False)
+    scorer = SCORERS.setdefault((max_chunk, max_triples), G.GaussianDBALScorer(max_chunk=max_chunk, max_triples=max_triples))
+    st, r = outcome(scorer.score, plates, real_matrix(d), h, rng, False)
     return st, ([float(r[p]) for p in range(len(sizes))] if st == "ok" and set(r.keys()) == set(range(len(sizes))) else r)
 
 
@@ -140,6 +155,14 @@ def run(ctx):
                 mc = rnd.choice([1, 2, 3, 50])
                 mt = 100000 if n < 30 else 6000
                 entries["scorer(max_chunk=%d,max_triples=%d,order=%s)" % (mc, mt, order)] = scorer_entry(n, sizes, means, vars_, d, mc, order, gen, max_triples=mt)
+            # a budget that covers the triples exactly: still all of them, each once
+            from math import comb as _comb
+            tot = _comb(n, 3)
+            st, s = outcome(G.dbal_fast_gauss_scoring_vectorized, pm, pv, d, gen, tot)
+            entries["vectorized(max_combos=C(n,3))"] = (st, s)
+            st, s = outcome(G.dbal_fast_gaussian_scoring_heteroscedastic, means, vars_, d, gen, tot)
+            entries["heteroscedastic(max_combos=C(n,3))"] = (st, s)
+            entries["scorer(max_chunk=2,max_triples=C(n,3))"] = scorer_entry(n, sizes, means, vars_, d, 2, list(range(P)), gen, max_triples=tot)
             # each plate alone
             for p in range(P):
                 st, s = outcome(G.dbal_fast_gaussian_scoring_heteroscedastic, [means[p]], [vars_[p]], d, gen, 10 ** 6)
